@@ -448,8 +448,28 @@ def qd_wake_blocked(ctx):
                         notif.append(bb)
         # the walk starts where the list is borrowed for it: a notify inside a `for` body is conditional on the list's contents, not on the path
         walks = [b for b in touches if any(n == b or n in rq.reachable_blocks(b) for n in notif)]
+        # the walk visits every entry: an adaptor that stops at the first match (or looks at one position) notifies a single waiter - which can
+        # be one that cannot claim the queue, or the caller itself
+        SHORT = ('find', 'find_map', 'any', 'all', 'position', 'rposition', 'next', 'next_back', 'nth', 'last', 'take', 'take_while', 'skip_while', 'map_while',
+                 'first', 'first_mut', 'last_mut', 'get', 'get_mut', 'pop', 'min_by_key', 'max_by_key', 'step_by', 'try_for_each', 'try_fold')
+        partial = []
+        for f_ in [rq] + [c for c in F.crate_fns() if c.is_closure and c.root == rq.name]:
+            for bb, t in f_.calls():
+                nm = t['func'].get('fn') or ''
+                if f_.blocks[bb]['cleanup'] or not t['args'] or t['args'][0]['k'] == 'const':
+                    continue
+                ty0 = clean_ty(t['args'][0]['pl']['ty'])
+                if 'Condvar' in ty0 and 'Weak<' in ty0 and nm.split('::')[-1] in SHORT and ('Iterator' in nm or 'slice' in nm or 'Vec' in nm or 'iter' in nm):
+                    # the desugared `for` loop calls Iterator::next itself: that is the exhaustive walk, not a partial one
+                    if nm.endswith('Iterator::next') and bb in f_.reachable_blocks(t['target'] if t['target'] is not None else bb):
+                        continue
+                    partial.append((f_, bb, nm.split('::')[-1]))
         if not walks or not notif:
             out.append(bad(R, key, 'reschedule_queue no longer walks wake_blocked and notifies the blocked sync callers', fn=rq.name))
+        elif partial:
+            f_, bb, m_ = partial[0]
+            out.append(bad(R, key, 'reschedule_queue looks at part of wake_blocked only (`%s`): it notifies one waiter, not every live one - the one it picks may be unable to claim the queue (or be the caller itself), '
+                           'and the others, whose only way to learn that the queue is claimable is this notification, wait for ever when no pool thread is free' % m_, loc=f_.loc(bb), fn=rq.name))
         elif rq.must_pass(0, set(rq.exits()), set(walks)):
             out.append(ok(R, key, 'every path through reschedule_queue walks wake_blocked and notifies each live waiter', fn=rq.name))
         else:
